@@ -140,29 +140,23 @@ def check_disp(cx, facts, rep):
         rep.ok('DISP', where + '|map-key-is-own-trait')
     else:
         rep.bad('DISP', where, 'map-key', 'a meta may be stored under a key that is not Trait::from_path of its own path', fn.file, fn.line)
-    # from_path table: "X" ↔ Self::X
-    fp = [f for f in cx.crate.fns if f.qname.endswith('supported_traits::Trait::from_path')]
-    if fp:
-        f = fp[0]
-        ffw = cx.fw(f)
-        n = 0
-        for ev in ffw.events:
-            if ev.kind == 'match':
-                for a in ev.node['arms']:
-                    p = a['pat']
-                    if p['k'] == 'Lit' and p['lit']['k'] == 'Str':
-                        n += 1
-                        name = p['lit']['v']
-                        body = es(a['body']).replace(' ', '')
-                        cf = cfgs_of_attrs(a.get('attrs'))
-                        if body != 'Some(Self::%s)' % name or cf != [('feat', name)]:
-                            rep.bad('DISP', f.qname, 'from_path=%s' % name, 'the name "%s" maps to `%s` under cfg %s' % (name, es(a['body']), cf), f.file, a['l'])
-                        else:
-                            rep.ok('DISP', '%s|"%s"' % (f.qname, name))
-        if n < 12:
-            rep.bad('DISP', f.qname, 'from_path-arms', 'only %d trait names are recognised' % n, f.file, f.line)
-    else:
+    # from_path table: "X" ↔ Self::X under cfg(feature = "X")
+    from .traitenum import from_path_model
+    fm = from_path_model(cx)
+    if fm is None:
         rep.broken.append('Trait::from_path not found')
+    else:
+        form, table, any_ = fm
+        f = [g for g in cx.crate.fns if g.qname.endswith('supported_traits::Trait::from_path')][0]
+        n = 0
+        for name, (variant, cf) in sorted(table.items()):
+            n += 1
+            if variant != name or cf != [('feat', name)]:
+                rep.bad('DISP', f.qname, 'from_path=%s' % name, 'the name "%s" maps to `%s` under cfg %s' % (name, variant, cf), f.file, f.line)
+            else:
+                rep.ok('DISP', '%s|"%s"' % (f.qname, name))
+        if n < 12 or any_:
+            rep.bad('DISP', f.qname, 'from_path-arms', 'only %d trait names are recognised by an enumerable table (%s form)' % (n, form), f.file, f.line)
 
 
 def check_models_own(cx, facts, rep):
